@@ -170,6 +170,7 @@ impl Ctx {
     }
     /// Report a violation. Per signature the shortest witness is kept.
     pub fn violation(&mut self, sig: &str, mut witness: Value, detail: String) {
+        let sig = &sig.replace(char::is_whitespace, "_");
         if let Some(o) = witness.as_object_mut() {
             o.insert("_case".into(), json!(self.counter.saturating_sub(1)));
             o.insert("_stratum".into(), json!(self.stratum));
@@ -450,7 +451,7 @@ pub struct Known {
 }
 
 pub fn load_known(verif_dir: &Path) -> Result<Vec<Known>, String> {
-    let p = verif_dir.join("known_findings.jsonl");
+    let p = verif_dir.join("KNOWN_FINDINGS");
     let s = match std::fs::read_to_string(&p) {
         Ok(s) => s,
         Err(_) => return Ok(vec![]),
@@ -461,14 +462,33 @@ pub fn load_known(verif_dir: &Path) -> Result<Vec<Known>, String> {
         if line.is_empty() || line.starts_with('#') {
             continue;
         }
-        let v: Value = serde_json::from_str(line).map_err(|e| format!("known_findings.jsonl line {}: {}", i + 1, e))?;
-        out.push(Known {
-            property: v["property"].as_str().unwrap_or("").to_string(),
-            signature: v["signature"].as_str().unwrap_or("").to_string(),
-            status: v["status"].as_str().unwrap_or("open").to_string(),
-            what: v["what"].as_str().unwrap_or("").to_string(),
-            example: v["example"].as_str().unwrap_or("").to_string(),
-        });
+        if let Some(rest) = line.strip_prefix("fixed:") {
+            let rest = rest.trim();
+            let property = rest.split_whitespace().next().and_then(|t| t.strip_prefix("property=")).unwrap_or("").to_string();
+            out.push(Known { property, signature: String::new(), status: "fixed".into(), what: rest.to_string(), example: String::new() });
+            continue;
+        }
+        if let Some(rest) = line.strip_prefix("open:") {
+            let (head, what) = match rest.find('|') {
+                Some(i) => (&rest[..i], rest[i + 1..].trim()),
+                None => (rest, ""),
+            };
+            let mut property = String::new();
+            let mut signature = String::new();
+            for t in head.split_whitespace() {
+                if let Some(v) = t.strip_prefix("property=") {
+                    property = v.to_string();
+                } else if let Some(v) = t.strip_prefix("signature=") {
+                    signature = v.to_string();
+                }
+            }
+            if property.is_empty() || signature.is_empty() {
+                return Err(format!("KNOWN_FINDINGS line {}: open entry needs property= and signature=", i + 1));
+            }
+            out.push(Known { property, signature, status: "open".into(), what: what.to_string(), example: String::new() });
+            continue;
+        }
+        return Err(format!("KNOWN_FINDINGS line {}: unrecognised entry", i + 1));
     }
     Ok(out)
 }
@@ -497,7 +517,7 @@ pub fn conclude(spec: &RunSpec, m: &Merged, wall_s: f64) -> i32 {
         let open = known.iter().find(|k| k.property == spec.prop && k.signature == v.sig && k.status == "open");
         match open {
             Some(k) => {
-                println!("KNOWN-FINDING: property={} sig={} example={} ({}; reproduced {}x this run)", spec.prop, v.sig, v.witness, k.what, v.count);
+                println!("KNOWN-FINDING: property={} signature={} example={} reproduced={}x :: {}", spec.prop, v.sig, v.witness, v.count, k.what);
                 reproduced.push((v.sig.clone(), v.count));
             }
             None => fresh.push(v),
